@@ -744,14 +744,15 @@ func (w *hWorld) hBuildAllAsDefaults() bool {
 //	6 F-tsub  types {P0,P1,P2} (canonical order), no names, subtypes {"",s,t}
 //	9 F-ptr   names {"",a}, UNNAMED types {*P0, *P1, []int} (Name() and PkgPath() are empty for all of them)
 //	8 F-assign names {"",a}, types {P0, hList (defined, underlying []int), []int}: assignable but different types
+//	10 F-asub no names, types {hList, []int} (assignable but different), subtypes {"",s}
 //	7 F-nsub  names {"",a,b}, types {P0,P1}, subtypes {"",s} on type P0 only... (= F-full with canonical type order)
-var hNamePool = [][]string{{""}, {"", "a", "b"}, {"", "a"}, {"", "a", "b"}, {"", "a"}, {""}, {""}, {"", "a", "b"}, {"", "a"}, {"", "a"}}
-var hTypePool = [][]int{{hTP0, hTP1, hTP2, hTI}, {hTP0, hTP1}, {hTP0}, {hTP0, hTP1}, {hTP0, hTP2, hTI}, {hTP0, hTP1, hTP2, hTP3, hTP4}, {hTP0, hTP1, hTP2}, {hTP0, hTP1}, {hTP0, hTList, hTSlice}, {hTPtr0, hTPtr1, hTSlice}}
-var hSubPool = [][]string{{""}, {""}, {"", "s", "S"}, {"", "s"}, {""}, {""}, {"", "s", "S"}, {"", "s"}, {""}, {""}}
+var hNamePool = [][]string{{""}, {"", "a", "b"}, {"", "a"}, {"", "a", "b"}, {"", "a"}, {""}, {""}, {"", "a", "b"}, {"", "a"}, {"", "a"}, {""}}
+var hTypePool = [][]int{{hTP0, hTP1, hTP2, hTI}, {hTP0, hTP1}, {hTP0}, {hTP0, hTP1}, {hTP0, hTP2, hTI}, {hTP0, hTP1, hTP2, hTP3, hTP4}, {hTP0, hTP1, hTP2}, {hTP0, hTP1}, {hTP0, hTList, hTSlice}, {hTPtr0, hTPtr1, hTSlice}, {hTList, hTSlice}}
+var hSubPool = [][]string{{""}, {""}, {"", "s", "S"}, {"", "s"}, {""}, {""}, {"", "s", "S"}, {"", "s"}, {""}, {""}, {"", "s"}}
 
 // families whose types are interchangeable plain structs: labels are drawn in
 // canonical (first-use) order so that the solver prunes relabelled duplicates
-var hCanonTypes = []bool{false, false, false, false, false, true, true, true, false, false}
+var hCanonTypes = []bool{false, false, false, false, false, true, true, true, false, false, false}
 
 // hMaxType is the highest pool position used so far in the world being drawn.
 var hMaxType = -1
